@@ -53,6 +53,8 @@ class CtxHooks(Hooks):
         return Hooks.opaque_call(self, eng, st, fn, args, kwargs)
 
     def func_attr(self, eng, st, fn, name, default):
+        if name in st.ghost.get("__func_attrs__", {}).get(id(fn), {}):
+            return Hooks.func_attr(self, eng, st, fn, name, default)   # an attribute the executed code stored itself
         if name == "_original_name":
             return [("val", eng.sym_of_type("str | None", "original_name", st), st)]
         return [("val", default, st)]
@@ -342,3 +344,54 @@ def wait_for_callback_method(chk, prefix="C14"):
         chk.prove(f"{prefix}.wfcb.method", s.pc, goal,
                   desc="wait_for_callback(submitter, name, config) runs exactly one child context named by the resolved name (`name` when it is non-empty, else the submitter's original name; one id of this context) whose body is wait_for_callback_handler(child context, submitter, name, config), and returns its value")
     return eng
+
+
+def decorators(chk, prefix="C08"):
+    """durable_step / durable_with_child_context / durable_wait_for_callback: binding extra arguments does not change what is called, and the
+    bound function carries the ORIGINAL function's name (the name under which the operation is recorded when no name is given)"""
+    for dec, lead in (("durable_step", 1), ("durable_with_child_context", 1), ("durable_wait_for_callback", 2)):
+        eng = Engine(hooks=CtxHooks())
+        P = eng.program
+        st = St()
+        q = f"context.{dec}"
+        chk.function(q, "verified (closure chain executed: decorator -> wrapper(*args, **kwargs) -> bound function)")
+
+        class H(CtxHooks):
+            def opaque_fn_attr(self, eng_, s, fn, name):
+                if fn.name == "user_function" and name == "__name__":
+                    return [("val", "user_function", s)]
+                return CtxHooks.opaque_fn_attr(self, eng_, s, fn, name)
+
+            def opaque_call(self, eng_, s, fn, args, kwargs):
+                if fn.name == "user_function":
+                    s.emit("user_function", args=tuple(args), kwargs=dict(kwargs))
+                    return [("val", fresh("any", "user_result"), s)]
+                return CtxHooks.opaque_call(self, eng_, s, fn, args, kwargs)
+        eng.hooks = H()
+        user = OpaqueFn("user_function")
+        a1, b1 = fresh("any", "extra_positional"), fresh("any", "extra_keyword")
+        lead_args = [fresh("any", f"leading{i}") for i in range(lead)]
+        n = 0
+        for k1, wrapper, s1 in eng.run(P.func(q), [user], st=st):
+            if k1 != "val":
+                chk.prove(f"{prefix}.decorators.{dec}", s1.pc, F, desc="the decorator does not raise")
+                continue
+            for k2, bound, s2 in eng.call_value(wrapper, [a1], {"extra": b1}, s1):
+                if k2 != "val":
+                    chk.prove(f"{prefix}.decorators.{dec}", s2.pc, F, desc="binding arguments does not raise")
+                    continue
+                nm = eng.getattr_default(bound, "_original_name", None, s2)
+                for k3, res, s3 in eng.call_value(bound, list(lead_args), {}, s2):
+                    n += 1
+                    chk.paths += 1
+                    calls = [e for e in s3.trace if e.kind == "user_function"]
+                    ok = k3 == "val" and len(calls) == 1 and len(nm) == 1 and nm[0][0] == "val" and nm[0][1] == "user_function"
+                    goal = z3.BoolVal(ok)
+                    if ok:
+                        c = calls[0]
+                        goal = z3.And(goal, z3.BoolVal(len(c.args) == lead + 1 and all(x is y for x, y in zip(c.args, lead_args + [a1])) and set(c.kwargs) == {"extra"} and c.kwargs["extra"] is b1),
+                                      z3.BoolVal(is_sym(res, "any") and res.t.decl().name().startswith("user_result")))
+                    chk.prove(f"{prefix}.decorators.{dec}", s3.pc, goal,
+                              desc=f"{dec}(f)(*a, **k) is a function g with g._original_name == f.__name__ and g(leading...) == f(leading..., *a, **k): the user function is called exactly once with the leading argument(s) first, and its value is returned")
+        if n == 0:
+            chk.fault(f"{dec}: no path explored")
